@@ -24,7 +24,13 @@ def gen_pool_case(rng, bias=None, faults=True, max_tasks=12):
         elif rng.random() < 0.07:
             t["empty_script"] = True  # Target.spec defaults to "": the shell still has to be started and exits 0
         tasks.append(t)
+    logs_not_dir = faults and rng.random() < 0.03
+    if logs_not_dir:
+        for t in tasks:
+            if not t.get("start_fail"):
+                t["log_fail"] = True  # no task can write its logs
     return {
+        "logs_not_dir": bool(logs_not_dir),
         "max_cores": rng.choice([1, 1, 2, 2, 3, 4]),
         "tasks": tasks,
         "adv_seed": rng.randrange(1 << 30),
